@@ -99,7 +99,7 @@ func ParseKDCProxyReply(b []byte) ([]byte, error) {
 // fake KDC: TCP and UDP on the same loopback port
 
 type KDCBehaviour struct {
-	TCP string // reply-close, reply-hold, partial-close, accept-close, accept-silence, none
+	TCP string // reply-close, reply-hold, partial-close, accept-close, accept-silence, trickle, none
 	UDP string // reply, silence, none
 }
 
@@ -203,6 +203,20 @@ func (k *FakeKDC) serveTCP() {
 			case "partial-close":
 				c.Write(framed[:len(framed)/2])
 				c.Close()
+			case "trickle":
+				// a valid length prefix at once, then the reply one byte every 700 ms
+				k.mu.Lock()
+				k.held = append(k.held, c)
+				k.mu.Unlock()
+				if _, err := c.Write(framed[:4]); err != nil {
+					return
+				}
+				for i := 4; i < len(framed); i++ {
+					time.Sleep(700 * time.Millisecond)
+					if _, err := c.Write(framed[i : i+1]); err != nil {
+						return
+					}
+				}
 			case "accept-silence":
 				k.mu.Lock()
 				k.held = append(k.held, c)
